@@ -664,3 +664,268 @@ func c01VersionPointsAtStoredContent(p *Prog, r *Report, rule string) {
 	r.Check(bad == "", rule, cons, p.pos(fi.Decl), fmt.Sprintf("the content record's Id is not changed after the version took it (%d later assignments, all followed by a re-assignment of the version's ContentId)", len(idWrites)),
 		"the content record's Id is assigned again at "+bad+" while the version keeps the id it was given before: the version points at a content record that does not exist, which is how a deleted key looks - the write is acknowledged and the key reads as not found")
 }
+
+func init() {
+	wrap := func(id string, extra func(p *Prog, r *Report)) {
+		old := registry[id]
+		registry[id] = func(p *Prog, r *Report) {
+			old(p, r)
+			extra(p, r)
+		}
+	}
+	for id, rule := range map[string]string{"C03": "C03.k", "C07": "C07.d", "C02": "C02.i"} {
+		id, rule := id, rule
+		wrap(id, func(p *Prog, r *Report) {
+			r.Rule(rule, "every write reaches the store: no Set / SetReader / Delete of the client layers (inline db, the transaction handle, the gRPC client) reports success without having handed the write on - a write that looks redundant to its caller (same bytes, key not visible) still enters the transaction's write set, decides conflicts and is what other readers see")
+			c03EveryWriteIsHandedOn(p, r, rule)
+		})
+	}
+	wrap("C17", func(p *Prog, r *Report) {
+		r.Rule("C17.o", "every configured root is served: each iteration of the loop over the configured roots in dir.New either fails the construction or records the root in the registry's list of roots (a root equal to one already recorded may be skipped)")
+		c17EveryRootRegistered(p, r, "C17.o")
+		r.Rule("C17.p", "ParseDir is the inverse of Dir.Path: the root and the name it answers are path.Dir and path.Base of the path (Dir.Path joins them with path.Join), so that a re-activated directory is registered under the very root string the registry and the free-space table use")
+		c17ParseDirInvertsPath(p, r, "C17.p")
+	})
+	wrap("C19", func(p *Prog, r *Report) {
+		r.Rule("C19.j", "ids are generated in the form the decoder renders: the decoder formats ids with uuid.UUID.String (canonical, 36 characters), so the generator must hand out uuid.NewString() / uuid.UUID.String() values - any other spelling of the same 16 bytes is encoded without complaint and comes back as a different string, under which no record is keyed")
+		c19GeneratorIsCanonical(p, r, "C19.j")
+	})
+}
+
+// c03EveryWriteIsHandedOn (seeded C03-A, C03-B, C02-B, round 6).
+func c03EveryWriteIsHandedOn(p *Prog, r *Report, rule string) {
+	forward := map[string]map[string]bool{
+		"Set":       {"Set": true, "SetReader": true, "SetFile": true},
+		"SetReader": {"Set": true, "SetReader": true, "SetFile": true},
+		"Delete":    {"Delete": true, "DeleteFile": true},
+	}
+	n := 0
+	for _, recvKey := range []string{"(*pkg/inline/db.db)", "(*fs_db.tx)", "(*pkg/external/db.db)"} {
+		for _, m := range []string{"Set", "SetReader", "Delete"} {
+			fi := p.Func(recvKey + "." + m)
+			if fi == nil {
+				continue
+			}
+			n++
+			f := p.FlatOf(fi)
+			names := forward[m]
+			hand := f.Match(func(gn *GNode) bool {
+				if _, isDefer := gn.Ast.(*ast.DeferStmt); isDefer {
+					return false
+				}
+				for _, c := range callsIn(gn.Ast, false) {
+					if sel, ok := ast.Unparen(c.Fun).(*ast.SelectorExpr); ok && names[sel.Sel.Name] {
+						return true
+					}
+				}
+				return false
+			})
+			cons := fi.Key + "#write-handed-on"
+			bad := ""
+			for _, id := range f.successReturns(fi) {
+				// (a return of the forwarding call itself is the hand-over)
+				if setOf(hand)[id] {
+					continue
+				}
+				if !f.MustPrecede(setOf(hand), id) {
+					bad = p.pos(f.Nodes[id].Ast)
+				}
+			}
+			// a function that returns the forwarding call's error directly has no nil return: fine
+			r.Check(bad == "" && len(hand) > 0, rule, cons, p.pos(fi.Decl), "every success return follows the hand-over of the write",
+				fi.Key+" can report success at "+bad+" without having handed the write on: the write never enters the transaction's write set, so it is not published at commit, raises no conflict, and other readers keep seeing what it should have replaced")
+		}
+	}
+	r.Floor(rule, "client-write-methods", n, 8)
+}
+
+// c17EveryRootRegistered (seeded C17-A, round 6).
+func c17EveryRootRegistered(p *Prog, r *Report, rule string) {
+	k := "internal/repository/dir.New"
+	fi := p.Func(k)
+	if fi == nil {
+		r.Undecided(rule, k, "", "dir.New not found")
+		return
+	}
+	info := fi.Pkg.TypesInfo
+	var param types.Object
+	for _, fld := range fi.Decl.Type.Params.List {
+		for _, nm := range fld.Names {
+			param = info.Defs[nm]
+		}
+	}
+	var loop *ast.RangeStmt
+	for _, rs := range rangeLoops(fi.Decl.Body) {
+		if objOf(info, rs.X) == param {
+			loop = rs
+		}
+	}
+	cons := k + "#every-root-recorded"
+	if loop == nil || loop.Value == nil {
+		r.Undecided(rule, cons, p.pos(fi.Decl), "loop over the configured roots not found")
+		return
+	}
+	rootObj := objOf(info, loop.Value)
+	body := p.NewFlat(fi.Pkg, loop.Body)
+	isRootsField := func(e ast.Expr) bool {
+		e = ast.Unparen(e)
+		if ix, ok := e.(*ast.IndexExpr); ok {
+			e = ast.Unparen(ix.X)
+		}
+		sel, ok := e.(*ast.SelectorExpr)
+		if !ok {
+			return false
+		}
+		fv, ok := info.Uses[sel.Sel].(*types.Var)
+		if !ok || !fv.IsField() {
+			return false
+		}
+		sl, ok := fv.Type().Underlying().(*types.Slice)
+		return ok && types.Identical(sl.Elem(), types.Typ[types.String])
+	}
+	rec := body.Match(func(n *GNode) bool {
+		as, ok := n.Ast.(*ast.AssignStmt)
+		if !ok {
+			return false
+		}
+		for i, l := range as.Lhs {
+			if isRootsField(l) && i < len(as.Rhs) && usesObj(info, as.Rhs[i], rootObj) {
+				return true
+			}
+			if isRootsField(l) && len(as.Rhs) == 1 && usesObj(info, as.Rhs[0], rootObj) {
+				return true
+			}
+		}
+		return false
+	})
+	if len(rec) == 0 {
+		// the list of roots may be the parameter itself, kept as it is
+		r.Hold(rule, cons, p.pos(loop), "the registry keeps the configured list itself")
+		return
+	}
+	// a skip of a root that is already recorded (slices.Contains(roots, root)) is not a loss
+	g := body.WithoutEdges(func(from *GNode, e Edge) bool {
+		if !from.IsCond {
+			return false
+		}
+		c, ok := ast.Unparen(from.Ast.(ast.Expr)).(*ast.CallExpr)
+		if ok && isFunc(info, c, "slices", "Contains") && len(c.Args) == 2 && usesObj(info, c.Args[1], rootObj) {
+			return e.Label == 1
+		}
+		return false
+	})
+	reach := g.Reach([]int{g.Entry}, func(n *GNode) bool { return setOf(rec)[n.ID] }, nil)
+	bad := ""
+	for _, e := range g.Exits() {
+		if !reach[e] || setOf(rec)[e] {
+			continue
+		}
+		if _, isRet := g.Nodes[e].Ast.(*ast.ReturnStmt); isRet {
+			continue // the construction fails
+		}
+		bad = p.pos(g.Nodes[e].Ast)
+		if g.Nodes[e].Ast == nil {
+			bad = "the end of the loop body"
+		}
+	}
+	r.Check(bad == "", rule, cons, p.pos(loop), "every iteration records its root or fails",
+		"an iteration over the configured roots can end at "+bad+" without recording the root: that root never gets a directory, never receives content, and its directories are ignored after a reopen")
+}
+
+// c17ParseDirInvertsPath (seeded C17-B, round 6).
+func c17ParseDirInvertsPath(p *Prog, r *Report, rule string) {
+	k := "internal/model.ParseDir"
+	fi := p.Func(k)
+	if fi == nil {
+		r.Undecided(rule, k, "", "ParseDir not found")
+		return
+	}
+	info := fi.Pkg.TypesInfo
+	var param types.Object
+	for _, fld := range fi.Decl.Type.Params.List {
+		for _, nm := range fld.Names {
+			param = info.Defs[nm]
+		}
+	}
+	f := p.FlatOf(fi)
+	cons := k + "#root-and-name"
+	good, n := true, 0
+	detail := ""
+	isPathFn := func(e ast.Expr, node int, name string) bool {
+		for _, o := range f.Origins(node, e) {
+			c, ok := ast.Unparen(o).(*ast.CallExpr)
+			if !ok || !(isFunc(info, c, "path", name) || isFunc(info, c, "path/filepath", name)) || len(c.Args) != 1 || objOf(info, c.Args[0]) != param {
+				return false
+			}
+		}
+		return true
+	}
+	for _, id := range f.ReturnNodes() {
+		rs := f.returnStmt(id)
+		if rs == nil || len(rs.Results) != 1 {
+			continue
+		}
+		cl, ok := ast.Unparen(rs.Results[0]).(*ast.CompositeLit)
+		if !ok {
+			for _, o := range f.Origins(id, rs.Results[0]) {
+				if c, isLit := ast.Unparen(o).(*ast.CompositeLit); isLit {
+					cl, ok = c, true
+				}
+			}
+		}
+		if !ok {
+			good, detail = false, "a return that is not a Dir literal"
+			continue
+		}
+		n++
+		fields := map[string]ast.Expr{}
+		for _, el := range cl.Elts {
+			if kv, isKV := el.(*ast.KeyValueExpr); isKV {
+				if key, isId := kv.Key.(*ast.Ident); isId {
+					fields[key.Name] = kv.Value
+				}
+			}
+		}
+		if fields["Root"] == nil || !isPathFn(fields["Root"], id, "Dir") {
+			good, detail = false, "Root is not path.Dir of the path"
+		}
+		if fields["Name"] == nil || !isPathFn(fields["Name"], id, "Base") {
+			good, detail = false, "Name is not path.Base of the path"
+		}
+	}
+	r.Check(good && n > 0, rule, cons, p.pos(fi.Decl), "Root = path.Dir(p), Name = path.Base(p)",
+		"ParseDir does not split the path the way Dir.Path joined it ("+detail+"): for some roots (the file-system root, a root given without a separator) a re-activated directory is registered under another root string than the one the registry measures, reports no free space and is never written to again")
+}
+
+// c19GeneratorIsCanonical (seeded C19-A, round 6).
+func c19GeneratorIsCanonical(p *Prog, r *Report, rule string) {
+	k := "(*internal/utils/generator.Gen).Generate"
+	fi := p.Func(k)
+	if fi == nil {
+		r.Undecided(rule, k, "", "the id generator was not found")
+		return
+	}
+	info := fi.Pkg.TypesInfo
+	f := p.FlatOf(fi)
+	good, n := true, 0
+	for _, id := range f.ReturnNodes() {
+		rs := f.returnStmt(id)
+		if rs == nil || len(rs.Results) != 1 {
+			continue
+		}
+		n++
+		for _, o := range f.Origins(id, rs.Results[0]) {
+			c, ok := ast.Unparen(o).(*ast.CallExpr)
+			if !ok {
+				good = false
+				continue
+			}
+			fn, _ := typeutilCallee(info, c)
+			if fn == nil || fn.Pkg() == nil || !strings.HasSuffix(fn.Pkg().Path(), "google/uuid") || (fn.Name() != "NewString" && fn.Name() != "String") {
+				good = false
+			}
+		}
+	}
+	r.Check(good && n > 0, rule, k+"#canonical-form", p.pos(fi.Decl), "ids are uuid.NewString() / UUID.String() values",
+		"the generator hands out ids that are not in the canonical form the record decoder renders: every id is stored without complaint and read back as a different string; after a restart no content record, content file or version record is found under the id the versions carry")
+}
